@@ -10,7 +10,7 @@ from dask.utils import apply
 from dask_expr import SetIndexBlockwise, new_collection
 from dask_expr._expr import MapPartitions, RenameAxis, ResetIndex
 from dask_expr._merge import Merge
-from dask_expr._util import _BackendData
+from dask_expr._util import _BackendData, _convert_to_list
 from dask_expr.io import FromPandas
 
 
@@ -56,6 +56,12 @@ class MergeAsof(Merge):
             "allow_exact_matches": self.allow_exact_matches,
             "direction": self.direction,
         }
+
+    def _join_columns(self):
+        left_on, right_on = super()._join_columns()
+        left_by = _convert_to_list(self.left_by) or []
+        right_by = _convert_to_list(self.right_by) or []
+        return left_on + left_by, right_on + right_by
 
     def _filter_passthrough_available(self, parent, dependents):
         # The rule of ``Merge`` decides by ``how``, which an asof join does not have
